@@ -14,6 +14,8 @@ import (
 var hookRedirects = map[string]string{
 	// float64 kernel: the engine evaluates floats only concretely
 	ModPath + "/grogu/signaller.isDeviated": "verifIsDeviatedHook",
+	// assume-guarantee seam: the slot contract proved by VerifC20Slot is used by VerifC20Deadline
+	ModPath + "/grogu/signaller.calculateAssignedTime": "verifAssignedTimeHook",
 	// keyring + tx factory + gas simulation + RPC broadcast
 	"(*" + ModPath + "/grogu/submitter.Submitter).broadcastMsg": "verifBroadcastHook",
 }
